@@ -673,6 +673,10 @@ func (l *lexer) lexRedir() action {
 	case IO_NUMBER:
 		goto Redir
 	}
+	switch tok = l.tr(tok); tok {
+	case Elif, Then, Else, Do:
+		return l.lexCmd(tok)
+	}
 	return l.lexToken(tok)
 Redir:
 	l.emit(tok)
